@@ -6,6 +6,9 @@ use crate::hist::*;
 
 pub fn prop() -> HistProp {
     let mut opts = HistOpts::new(Profile::Typed);
+    // timestamp setters are part of the histories: they must not disturb the tree or later calls
+    opts.with_time = true;
+    opts.twin = true;
     opts.contract = true;
     HistProp {
         opts,
@@ -15,13 +18,13 @@ pub fn prop() -> HistProp {
         cases_quick: 3000,
         cases_thorough: 200_000,
         nontrivial: |s, _| s.executed >= 6 && s.fail_on_nonempty >= 1 && s.removed_created_earlier >= 1 && s.wrong_typed >= 1,
-        rule: "histories vec(op,0..=40) in the typed profile x name pool x depth x backend stack (grammar Mem|Phys|Altroot(x,depth 0..3)|Overlay[1..4 x], nesting<=2 plus pre-populated layers); non-trivial = >=6 executed ops with >=1 expected failure on a non-empty tree, >=1 removal of an entry created earlier in the case and >=1 wrong-typed call; distinct by hash of the generated case",
+        rule: "histories vec(op,0..=40) in the typed profile x name pool x depth x backend stack (grammar Mem|Phys|Altroot(x,depth 0..3)|Overlay[1..4 x], nesting<=2 plus pre-populated layers; one stack in thirteen is an overlay over the read-only embedded fixture; name pools of 3..5, 12..20 (depth 2) or 2 (depth 7) names; one history in twelve has 40..120 ops; timestamp setters included; on overlays a second instance over the same layers must show the same tree); non-trivial = >=6 executed ops with >=1 expected failure on a non-empty tree, >=1 removal of an entry created earlier in the case and >=1 wrong-typed call; distinct by hash of the generated case",
         floors: vec![("distinct_nontrivial", 20), ("cfg:mem", 5), ("cfg:phys", 5), ("cfg:altroot", 5), ("cfg:overlay", 5), ("wrong_typed_calls", 100), ("expected_failures", 300)],
         assumptions: vec![
             "Linux host; scratch on tmpfs (/dev/shm) or the temp dir",
             "message texts, non-named error kinds, listing order and timestamps are not compared",
             "after a failed composite call the model is re-synchronised from the observed (well-formed) tree",
-            "pre-populated overlay layers are type-consistent",
+            "pre-populated overlay layers are type-consistent, except for a directory above a same-named file of a deeper layer (the first layer that has a path decides its type)",
         ],
         exclude: crate::findings::hist_excluder("C01"),
         labeler: no_labels,
